@@ -5,6 +5,24 @@ from astropy.wcs.wcsapi.wrappers.sliced_wcs import sanitize_slices
 __all__ = ['NDCubeSlicingMixin']
 
 
+def _normalize_negative_indices(axis_item, axis_length):
+    """
+    Convert negative entries of an integer or slice item to non-negative equivalents.
+    """
+    if isinstance(axis_item, slice):
+        start, stop = axis_item.start, axis_item.stop
+        if start is not None and start < 0:
+            start = max(start + axis_length, 0)
+        if stop is not None and stop < 0:
+            stop = max(stop + axis_length, 0)
+        return slice(start, stop, axis_item.step)
+    if axis_item < 0:
+        if axis_item < -axis_length:
+            raise IndexError(f"index {axis_item} is out of bounds for axis with size {axis_length}")
+        return axis_item + axis_length
+    return axis_item
+
+
 class NDCubeSlicingMixin(NDSlicingMixin):
     # Inherit docstring from parent class
     __doc__ = NDSlicingMixin.__doc__
@@ -20,6 +38,10 @@ class NDCubeSlicingMixin(NDSlicingMixin):
             raise IndexError("None indices not supported")
 
         item = tuple(sanitize_slices(item, len(self.shape)))
+        # Negative indices are relative to the array shape, which the WCS slicing
+        # machinery does not know about, so convert them to their positive equivalents.
+        item = tuple(_normalize_negative_indices(axis_item, axis_length)
+                     for axis_item, axis_length in zip(item, self.shape))
         sliced_cube = super().__getitem__(item)
 
         sliced_cube._global_coords._internal_coords = self.global_coords._internal_coords
